@@ -20,3 +20,4 @@ open FormulaeModel
 #print axioms C02.C02_refines_needs_scanner_shape
 #print axioms C02.C02_scanner_shape_partial
 #print axioms C02.C02_scanner_shape_counterexample
+#print axioms C02.C02_refines_text_partial
